@@ -195,6 +195,11 @@ def run_real(ctx, binary, scens, name, timeout_s=15):
     p = vlib.run_harness(binary, ["-in", scen, "-out", trace, "-par", str(par), "-timeout", "%ds" % timeout_s, "-hangcap", "1"],
                          timeout=3000)
     ctx.stage("real-run-" + name, scenarios=len(scens), out=p.stdout.strip())
+    m = re.search(r"fake_overflow_dropped=(\d+)", p.stdout)
+    if m and int(m.group(1)) > max(5, len(scens) // 500):
+        # scenarios whose fake API server overflowed its watch channel in five attempts give no verdict; a few of them on a
+        # loaded machine are left out (the count is in the evidence), more than that means the run says nothing
+        raise vlib.Infra("%s scenarios dropped: the fake API server's watch channel overflowed in five attempts each" % m.group(1))
     return trace
 
 
